@@ -151,6 +151,7 @@ class Controller:
         self.c11_stop_bad = []
         _Mot.ledger = self.mot_calls.append
         self.n_susp = 0
+        self.mon_trace = []            # C41: ('msg', command, aux?, engine state, live subscriptions, monitors of open runs) / ('state', new, live, monitors)
         self.suspend_plans = any(str(lab).startswith("pre") for lab, _ in self.decisions)
 
     NONREPLAYABLE = ("pause", "subscribe", "unsubscribe", "stage", "unstage", "monitor", "unmonitor", "open_run", "close_run",
@@ -188,7 +189,14 @@ class Controller:
         elif cmd == "_start_suspender":
             self.c04_expected = []
 
+    def monitors(self):
+        """(live engine subscriptions on the monitored devices, monitors the open runs hold)"""
+        live = len(_SIG.cbs) + len(_SIG_B.cbs)
+        held = sum(len(b._monitor_params) for b in self.RE._run_bundlers.values() if b.run_is_open)
+        return live, held
+
     def on_msg(self, msg):
+        self.mon_trace.append(("msg", msg.command, id(msg) in self.aux_msgs, str(self.RE.state)) + self.monitors())
         if self.after_start_suspender:
             # the message right after _start_suspender: the handler has run, every moved device must have been told to stop
             self.after_start_suspender = False
@@ -210,6 +218,7 @@ class Controller:
     def on_state(self, new, old):
         new = str(new)
         self.trace.append(("state", new))
+        self.mon_trace.append(("state", new) + self.monitors())
         if new == "paused":
             self.c04_compare("pause")
         if new == "running" and str(old) == "paused":
@@ -222,6 +231,15 @@ class Controller:
             self.doomed_bad.append(f"the engine reached 'paused' although the {self.doomed} took effect in a non-resumable section")
 
     # ---------------------------------------------------------------- decisions
+    def peek_decision(self, label):
+        """the next decision if it carries `label` (consumed), else None (nothing consumed, no divergence recorded)"""
+        while self.pos < len(self.decisions) and self.decisions[self.pos][0] == "replay":
+            self.pos += 1
+        if self.pos < len(self.decisions) and self.decisions[self.pos][0] == label:
+            self.pos += 1
+            return self.decisions[self.pos - 1]
+        return None
+
     def next_decision(self, kinds):
         """next decision whose label is one of `kinds` (prefix match); model-only decisions ('replay') are skipped"""
         while self.pos < len(self.decisions):
@@ -571,7 +589,7 @@ class _Sig:
             self.cbs.remove(cb)
 
 
-_FLY, _SIG = _Fly(), _Sig()
+_FLY, _SIG, _SIG_B = _Fly(), _Sig(), _Sig()
 
 
 def _callback(name, doc):
@@ -584,6 +602,8 @@ MESSAGES = {
     "set": lambda: Msg("set", _MOT, 1), "set_async": lambda: Msg("set", _AMOT, 1),
     "kickoff": lambda: Msg("kickoff", _FLY), "collect": lambda: Msg("collect", _FLY),
     "monitor": lambda: Msg("monitor", _SIG), "unmonitor": lambda: Msg("unmonitor", _SIG),
+    "open_run_b": lambda: Msg("open_run", run="b"), "close_run_b": lambda: Msg("close_run", run="b"),
+    "monitor_b": lambda: Msg("monitor", _SIG_B, run="b"), "unmonitor_b": lambda: Msg("unmonitor", _SIG_B, run="b"),
     "subscribe": lambda: Msg("subscribe", None, _callback, "all"),
     "stage": lambda: Msg("stage", _DEV), "unstage": lambda: Msg("unstage", _DEV),
     "custom": lambda: Msg("custom"), "custom_async": lambda: Msg("custom_async"), "null": lambda: Msg("null"),
@@ -611,6 +631,7 @@ def install_shim(ctl):
 def run_native(decisions, msgs):
     del LEDGER[:]
     del _SIG.cbs[:]
+    del _SIG_B.cbs[:]
     """-> dict(calls=[(name, outcome, state after, ...)], docs=[...], diverged=..., log=[...])"""
     ctl = Controller(decisions, msgs)
     _CTL["ctl"] = ctl
@@ -641,17 +662,26 @@ def run_native(decisions, msgs):
         out["calls"].append({"call": name, "outcome": r[0], "exc": r[1] if r[0] == "raise" else None, "value": r[1] if r[0] == "ok" else None,
                              "state": str(RE.state), "resumable": RE._msg_cache is not None, "open_runs": len(open_runs), "plan": ctl.plan_done,
                              "interrupted": RE._interrupted, "deferred": bool(RE.deferred_pause_requested), "doomed": ctl.doomed,
-                             "trace_len": len(ctl.trace), "uids": list(RE._run_start_uids)})
+                             "trace_len": len(ctl.trace), "uids": list(RE._run_start_uids), "monitors_live": ctl.monitors()[0]})
         if str(RE.state) == "idle":
             ctl.doomed = None
             out["calls"][-1]["ledger"] = list(LEDGER)
-            out["calls"][-1]["monitors_left"] = len(_SIG.cbs)
+            out["calls"][-1]["monitors_left"] = len(_SIG.cbs) + len(_SIG_B.cbs)
             out["calls"][-1]["tokens"] = len(RE.dispatcher._token_mapping)
     plan = ctl.plan()
     ctl.submit(lambda: RE(plan))
     r = ctl.schedule()
     record("__call__", r)
     while r[0] != "stuck" and str(RE.state) == "paused":
+        wp = ctl.peek_decision("while paused")
+        if wp is not None and wp[1] != "nothing":
+            # another thread makes a request while the engine sits paused: the loop thread handles it while the main thread is idle
+            ctl.env_action(wp[1])
+            while ctl.loop.step():
+                pass
+            ctl.mon_trace.append(("state", str(RE.state)) + ctl.monitors())
+            if str(RE.state) != "paused":
+                break
         d = ctl.next_decision(["post-pause decision"])
         if d is None:
             break
@@ -682,6 +712,7 @@ def run_native(decisions, msgs):
     out["suspend_plans"] = ctl.suspend_plans
     out["tokens_at_second_start"] = getattr(ctl, "tokens_at_second_start", None) or 1
     out["c11_stop_bad"] = ctl.c11_stop_bad
+    out["mon_trace"] = ctl.mon_trace
     out["log"] = ctl.log
     out["plan_exc"] = getattr(ctl, "plan_exc", None)
     out["loop_errors"] = [str(c.get("exception")) for c in ctl.loop.errors]
@@ -813,7 +844,8 @@ def _violations(obligation, res):
                 ok = reason == "because"
             if not ok:
                 bad.append(f"the engine closed a run with exit_status={st!r} reason={reason!r}; licensed: {allowed}, plan {last_plan[0]}, requests {reqs}")
-    elif "_start_suspender#ensures" in art_obligation or "request_suspend#ensures" in art_obligation or "while the plan is suspended" in tag:
+    elif "monitor subscription" not in tag and (
+            "_start_suspender#ensures" in art_obligation or "request_suspend#ensures" in art_obligation or "while the plan is suspended" in tag):
         only_susp = not any(x[0] == "request" and x[1] in ("pause", "pause_defer", "abort", "stop", "halt") for x in res["log"]) and \
             not any(c["call"] in ("abort", "stop", "halt") for c in res["calls"])
         phase, released, post_done = None, False, {}
@@ -847,6 +879,33 @@ def _violations(obligation, res):
                         phase = None
         if tag.startswith("ensures[at suspension every device that was moved"):
             bad.extend(res.get("c11_stop_bad", []))
+    elif "holds a live monitor subscription" in tag or tag.startswith("ensures[once the engine runs again after a pause or a suspension every monitor"):
+        # C41: the subscription ledger of the monitored fake signals, sampled at every message (msg_hook) and state change (state_hook)
+        undisturbed = not any(x[0] == "request" and x[1] in ("abort", "stop", "halt") for x in res["log"]) and \
+            not any(c["call"] in ("abort", "stop", "halt") for c in res["calls"]) and not res.get("failed_pause")
+        susp = False
+        internal = ("_start_suspender", "rewindable", "wait_for", "_resume_from_suspender")
+        for x in res.get("mon_trace", []):
+            live, held = x[-2], x[-1]
+            if x[0] == "state":
+                if x[1] in ("pausing", "paused"):
+                    susp = False
+                if x[1] == "paused" and live and "while the engine is paused" in tag:
+                    bad.append(f"engine paused with {live} engine subscription(s) still on the monitored device(s)")
+            else:
+                _, cmd, aux, st = x[:4]
+                if susp and cmd != "_start_suspender" and undisturbed and live and "while the plan is suspended" in tag:
+                    bad.append(f"{live} engine subscription(s) on the monitored device(s) while the plan is suspended (seen at message {cmd!r})")
+                if cmd == "_start_suspender":
+                    susp = True
+                elif cmd == "_resume_from_suspender":
+                    susp = False
+                elif cmd not in internal and not susp and st == "running" and live < held and "once the engine runs again" in tag:
+                    bad.append(f"message {cmd!r} executed with the engine running but only {live} of {held} monitor(s) subscribed")
+        if "while the engine is paused" in tag:
+            for c in res["calls"]:
+                if c["state"] == "paused" and c.get("monitors_live"):
+                    bad.append(f"{c['call']} returned with the engine paused and {c['monitors_live']} engine subscription(s) on the monitored device(s)")
     elif tag.startswith("ensures[at idle every"):
         for c in res["calls"]:
             if c["state"] != "idle" or "ledger" not in c:
@@ -903,6 +962,135 @@ def replay(model, info, art):
     if res["diverged"]:
         return "not-constructible", f"native run diverged from the model's schedule ({res['diverged']}) and did not violate the obligation: {summary}"
     return "contradicted", f"native run followed the schedule and satisfied the obligation: {summary}"
+
+
+def run_history(history, suspend_plans=False):
+    """C41: the *history* of a counter-example (what took effect in which order: plan messages, requests, pauses, suspensions, main-thread
+    calls - recorded by the ghost monitor of contracts/run_mon4.py) re-played on a real RunEngine with its own loop thread.  Requests that
+    were in flight together are made together (back to back, from a registered command that runs between two plan messages); requests made
+    while the engine sat paused are made from the main thread while it sits paused.  The subscription ledger of the monitored fake signals is
+    sampled at every message and state change, exactly as in the stepping replay.  -> a result dict for `_violations`"""
+    del LEDGER[:]
+    del _SIG.cbs[:]
+    del _SIG_B.cbs[:]
+    items, main, pending = [], [], []
+    for tok in history:
+        tok = tuple(tok)
+        if tok[0] == "plan" and tok[1] in MESSAGES:
+            items.append(("m", tok[1]))
+        elif tok[0] == "req":
+            if tok[2] == "main-idle":
+                if tok[1] not in ("abort", "stop", "halt"):
+                    main.append(("req", tok[1]))
+            else:
+                pending.append(tok[1])
+        elif tok[0] in ("state", "suspension-starts") and pending and tok[1:] != ("running",):
+            items.append(("inject", tuple(pending)))
+            pending = []
+        elif tok[0] == "call" and tok[1] != "__call__":
+            main.append(("call", tok[1]))
+    if pending:
+        items.append(("inject", tuple(pending)))
+    RE = RunEngine({}, context_managers=[])
+    mon_trace, log, calls, aux, done, releases = [], [], [], set(), set(), []
+
+    def monitors():
+        return (len(_SIG.cbs) + len(_SIG_B.cbs), sum(len(b._monitor_params) for b in RE._run_bundlers.values() if b.run_is_open))
+
+    def on_msg(msg):
+        mon_trace.append(("msg", msg.command, id(msg) in aux, str(RE.state)) + monitors())
+        if msg.command == "wait_for":
+            for rel in releases:          # the suspender's condition is released a little after the engine has started to wait for it
+                RE.loop.call_later(0.1, rel.set)
+    RE.msg_hook = on_msg
+    RE.state_hook = lambda new, old: mon_trace.append(("state", str(new)) + monitors())
+    keep = []
+
+    def aux_plan():
+        m = Msg("null")
+        aux.add(id(m))
+        keep.append(m)
+        yield m
+
+    def request(kind, in_loop=False):
+        log.append(("request", kind, str(RE.state)))
+        if kind in ("pause", "pause_defer") and in_loop:
+            RE.loop.create_task(RE._request_pause_coro(kind == "pause_defer"))    # (request_pause itself blocks until the loop has handled it)
+        elif kind in ("pause", "pause_defer"):
+            RE.request_pause(kind == "pause_defer")
+        elif kind == "suspend":
+            rel = asyncio.Event()
+            releases.append(rel)
+            if suspend_plans:
+                RE.request_suspend(rel.wait, pre_plan=aux_plan(), post_plan=aux_plan(), justification="beam dump")
+            else:
+                RE.request_suspend(rel.wait)
+        else:
+            threading.Thread(target=lambda: _swallow(lambda: RE.abort("because") if kind == "abort" else getattr(RE, kind)()), daemon=True).start()
+
+    async def inject(msg):
+        if id(msg) in done:
+            return                      # (replayed after a rewind: the requests are made once)
+        done.add(id(msg))
+        for kind in msg.args[0]:
+            request(kind, in_loop=True)
+        await asyncio.sleep(0.05)      # the requests are handled by the loop while this command is in progress
+    RE.register_command("inject", inject)
+
+    def plan():
+        for what, x in items:
+            m = MESSAGES[x]() if what == "m" else Msg("inject", None, x)
+            keep.append(m)
+            yield m
+
+    def blocking(name, f):
+        try:
+            r = ("ok", f())
+        except BaseException as e:     # noqa
+            r = ("raise", e)
+        st = str(RE.state)
+        calls.append({"call": name, "outcome": r[0], "exc": r[1] if r[0] == "raise" else None, "state": st, "monitors_live": monitors()[0],
+                      "monitors_left": monitors()[0], "ledger": []})
+        mon_trace.append(("state", st) + monitors())
+    blocking("__call__", lambda: RE(plan()))
+    while str(RE.state) == "paused":
+        if not main:
+            blocking("abort", lambda: RE.abort("end of the replayed history"))
+            calls.pop()
+            break
+        what, x = main.pop(0)
+        if what == "req":
+            request(x)
+            time.sleep(0.2)              # the loop thread handles the request while the main thread is idle
+            mon_trace.append(("state", str(RE.state)) + monitors())
+        else:
+            blocking(x, (lambda: RE.abort("because")) if x == "abort" else getattr(RE, x))
+    return {"calls": calls, "log": log, "mon_trace": mon_trace, "trace": [], "docs": [], "diverged": None,
+            "failed_pause": False, "script": [x for _, x in items], "main": main}
+
+
+def _swallow(f):
+    try:
+        f()
+    except BaseException:     # noqa
+        pass
+
+
+def replay_monitors(model, info, art):
+    """C41 (T2 obligations): first the counter-example's schedule step by step (`replay`); the real handlers of 'monitor' / 'open_run' take
+    more loop steps than their contracts in the model, so a request that the model lands right after such a message natively lands inside
+    it - when the stepping replay does not show the violation, the counter-example's history is re-played with the requests landing at
+    message boundaries (`run_history`) and judged by the same oracle"""
+    verdict, detail = replay(model, info, art)
+    if verdict == "confirmed" or not info.get("history"):
+        return verdict, detail
+    opts = ((info.get("scenario") or {}).get("opts") or {})
+    res = run_history(info["history"], suspend_plans=str(opts.get("suspend_plans")) == "True")
+    bad = _violations(art.get("obligation", ""), res)
+    summary = "; ".join(f"{c['call']} -> {c['outcome']} state={c['state']}" for c in res["calls"])
+    if bad:
+        return "confirmed", "; ".join(sorted(set(bad))) + f"  [history re-played at message boundaries: plan {res['script']}; {summary}]  [stepping replay: {detail}]"
+    return verdict, detail + f"  [history re-played at message boundaries: plan {res['script']}; {summary}: obligation satisfied]"
 
 
 def failed_status(model, info, art):
